@@ -137,7 +137,8 @@ static std::string snapshot(Session& S, torrent::Download dl, Torrent* /*unused*
       if (c->file_descriptor() < 0) continue;
       sockaddr_in a{};
       socklen_t n = sizeof a;
-      if (getpeername(c->file_descriptor(), (sockaddr*)&a, &n) == 0 && ntohs(a.sin_port) == kv.second.port) pcb = c;
+      if (getpeername(c->file_descriptor(), (sockaddr*)&a, &n) == 0 && ntohs(a.sin_port) == kv.second.port &&
+          (ntohl(a.sin_addr.s_addr) & 0xff) == (unsigned)(2 + kv.first)) pcb = c;   // ports may repeat across local addresses
     }
     if (pcb == nullptr) continue;
     auto* e = pcb->m_extensions;
